@@ -73,6 +73,18 @@ def _split_lines(arg):
     return out
 
 
+def _compares_as_sets(sx, val):
+    """The equality printed under 'Are equal' is taken between lists whose elements went through set() / frozenset() / sorted():
+    the name of that conversion, else None."""
+    for t in C02._sub(val):
+        if t[0] == "cmp" and t[1] == "==" and t[2][0] == "compr" and t[3][0] == "compr" and t[2][1] in sx.loops and t[3][1] in sx.loops:
+            for L in (sx.loops[t[2][1]], sx.loops[t[3][1]]):
+                for x in C02._sub(L.elt) if L.elt is not None else []:
+                    if x[0] == "call" and x[1] in ("set", "frozenset", "sorted") and len(x[2]) == 1 and mentions(x[2][0], lambda y: y == ("elem", L.id)):
+                        return x[1]
+    return None
+
+
 def _lossy(sx, val, depth=0):
     """A conversion inside the written value that drops digits: a format with a precision, round(), int(), %-formatting with a
     precision - also inside the comprehensions the value is joined from.  The offending sub-term, or None."""
@@ -273,6 +285,10 @@ def r1234_writer(ctx, chk):
             elif _lossy(sx, val):
                 chk.violation("C16.2", where, "the value under %r passes through `%s` before it is written: it no longer reads back to what was computed" % (label, show(_lossy(sx, val))[:80]),
                               expected=show(want), found=show(val)[:140], construct="save_results transformed %s" % label)
+            elif spec_row[0] == "equal" and _compares_as_sets(sx, val):
+                chk.violation(rule, where, "under the label %r the two strategy lists are compared after each state's actions were turned into a %s: lists that differ in the number of "
+                              "times an action is listed (parallel transitions with one label) or in order are reported as equal although the report prints two different values" % (
+                                  label, _compares_as_sets(sx, val)), expected=show(want), found=show(val)[:140], construct="save_results equality on transformed lists")
             elif mentions(val, lambda x: x[0] in ("compr", "res", "apply") or (x[0] == "idx" and x[1][0] in ("compr", "res", "ite"))):
                 chk.undecided(rule, where, "under the label %r the report prints `%s`: read through a container built on the way, not resolved to `%s`" % (label, show(val)[:80], show(want)))
             elif wrapped and not [w_ for w_ in wrapped if not ((w_[0] == "call" and w_[1] in ("repr", "str", "type", "isinstance", "all", "any", "list", "tuple", "len", "bool"))
